@@ -1800,6 +1800,16 @@ class DocutilsRenderer(RendererProtocol):
                 line=position,
             )
             return [error_msg]
+        except SystemMessage:
+            raise  # the reporter's halt_level was reached
+        except Exception as exc:
+            # e.g. a docutils directive that assumes its content produces nodes
+            error_msg = self.reporter.error(
+                f"Directive '{name}' failed: {exc.__class__.__name__}: {exc}",
+                nodes.literal_block(content, content),
+                line=position,
+            )
+            return [error_msg]
 
         assert isinstance(
             result, list
